@@ -78,6 +78,8 @@ def gen_project(rng, stream="structured", n_tasks=None, facilities=None, fs_only
     few = stream == "contention"
     for ti in range(n_teams):
         nw = rng.choice([1, 1, 2]) if few else rng.choice([1, 2, 2, 3])
+        if ti > 0 and rng.random() < 0.12:
+            nw = 0                   # a team without members (it still keeps a cost list)
         ws = []
         for j in range(nw):
             skills = {}
@@ -163,6 +165,11 @@ def gen_project(rng, stream="structured", n_tasks=None, facilities=None, fs_only
             t["fixf"] = sorted(rng.sample(range(nfac), 1))
         elif t["need_fac"] and rng.random() < 0.03:
             t["fixf"] = []
+    # a team may be wired to its tasks through BaseTeam(targeted_task_list=...) only: the
+    # task's own allocated_team_list (not read by the simulation) then stays empty
+    for tm_ in teams:
+        if rng.random() < 0.1:
+            tm_["oneside"] = True
     # parent links of teams and workplaces (organisation chart only: no effect on a simulation)
     for i in range(1, len(teams)):
         if rng.random() < 0.4:
@@ -207,6 +214,18 @@ def gen_pairs_project(rng):
                    "fskills": {str(f): "1/1" for f in range(nf)}, "cost": qs(rng.choice([Fraction(1), Fraction(5, 2)])),
                    "solo": False, "abs": sorted(set(rng.randrange(0, 6) for _ in range(rng.choice([0, 1, 1, 2])))), "mainwp": None, "name": j})
     wps = [{"cap": qs(Fraction(ncomp)), "inputs": [], "facs": facs}]
+    # fixed-ID lists: several tasks insisting on the same facility / the same workers
+    r = rng.random()
+    if r < 0.25:
+        shared = sorted(rng.sample(range(nf), rng.choice([1, 1, 2])))
+        for t in tasks:
+            if rng.random() < 0.8:
+                t["fixf"] = list(shared)
+    elif r < 0.35:
+        shared = sorted(rng.sample(range(nw), rng.choice([1, 2])))
+        for t in tasks:
+            if rng.random() < 0.8:
+                t["fixw"] = list(shared)
     return {"tasks": tasks, "edges": edges, "comps": comps, "teams": [{"workers": ws}], "wps": wps, "unit": 60,
             "rank": rng.sample(range(8), 8)[:nt], "crank": rng.sample(range(8), 8)[:ncomp]}
 
@@ -263,6 +282,9 @@ def simplify_feasible(rng, case):
         if not t["teams"]:
             t["teams"] = [0]
         tm = case["teams"][t["teams"][0]]
+        if not tm["workers"]:
+            t["teams"] = [0] + [x for x in t["teams"] if x != 0]
+            tm = case["teams"][0]
         w = tm["workers"][0]
         if Fraction(w["skills"].get(str(t["name"]), "0")) <= 0:
             w["skills"][str(t["name"])] = "1/1"
